@@ -160,6 +160,72 @@ def run_sanitisers(c, prog):
 
 
 
+def vec_kept_sorted(prog, adt, field):
+    """every mutation of the Vec field `adt.field` keeps it sorted: `v.insert(i, x)` with `i` bound from the `Err(i)`
+    of `v.binary_search*(..)` on the same field, or a `sort*` of the field later in the same function"""
+    crate = adt.split("::", 1)[0]
+    MUT = {"push", "insert", "extend", "extend_from_slice", "append", "push_back", "push_front", "swap", "reverse", "rotate_left", "rotate_right", "splice", "drain", "retain", "truncate", "remove", "swap_remove", "dedup", "sort", "sort_by", "sort_by_key", "sort_unstable", "sort_unstable_by", "sort_unstable_by_key", "clear"}
+    ORDER_SAFE = {"retain", "truncate", "remove", "dedup", "clear", "drain", "sort", "sort_by", "sort_by_key", "sort_unstable", "sort_unstable_by", "sort_unstable_by_key"}
+    seen = 0
+    for fn in prog.lib_fns():
+        if fn.crate != crate or fn.body is None:
+            continue
+        muts = []
+        for n in core.walk_fn(fn):
+            if n.get("k") == "MethodCall" and n["m"] in MUT and core.place_root(n["recv"])[1][-1:] == [field] and "alloc::vec::Vec<" in ((n["recv"].get("ty") or "") + (n["recv"].get("aty") or "")):
+                muts.append(n)
+        if not muts:
+            continue
+        sorts_after = [n for n in muts if n["m"].startswith("sort")]
+        for n in muts:
+            seen += 1
+            if n["m"] in ORDER_SAFE:
+                continue
+            if n["m"] == "insert" and len(n["args"]) == 2:
+                idx = core.strip(n["args"][0])
+                # the index local is bound by a pattern over `<field>.binary_search*(..)`
+                ok = False
+                for m in core.walk_fn(fn):
+                    pats = []
+                    if m.get("k") == "LetExpr":
+                        pats = [(m["pat"], m["init"])]
+                    elif m.get("k") == "Match" and m.get("src") == "Normal":
+                        pats = [(a["pat"], m["e"]) for a in m["arms"]]
+                    for pat, init in pats:
+                        i0 = core.strip(init)
+                        if i0.get("k") == "MethodCall" and i0["m"].startswith("binary_search") and core.place_root(i0["recv"])[1][-1:] == [field]:
+                            lids = _pat_lids(pat)
+                            if idx.get("lid") in lids and "Err" in core.pat_str(pat):
+                                ok = True
+                if ok:
+                    continue
+            if sorts_after and any(_spk(x) > _spk(n) for x in sorts_after):
+                continue
+            return False
+    return seen > 0
+
+
+def _pat_lids(p):
+    out, stack = [], [p]
+    while stack:
+        x = stack.pop()
+        if isinstance(x, dict):
+            if x.get("k") == "Binding" and "lid" in x:
+                out.append(x["lid"])
+            stack.extend(v for v in x.values() if isinstance(v, (dict, list)))
+        elif isinstance(x, list):
+            stack.extend(x)
+    return out
+
+
+def _spk(n):
+    parts = (n.get("sp") or "").split(":")
+    try:
+        return (int(parts[1]), int(parts[2]))
+    except (IndexError, ValueError):
+        return (0, 0)
+
+
 def _contains(t, sub):
     if t == sub:
         return True
@@ -226,6 +292,10 @@ def run(c, prog):
         f = [x for x in a["variants"][0]["fields"] if x["name"] == field]
         inst = f"{adt}.{field}"
         if f and f[0]["ty"].startswith(pref):
+            c.ok(R, inst)
+        elif f and "btree" in pref and f[0]["ty"].startswith("alloc::vec::Vec<") and vec_kept_sorted(prog, adt, field):
+            # a vector whose every mutation is `insert` at the position `binary_search` reported (or is followed by a
+            # sort) iterates in the order of its contents, like the B-tree container
             c.ok(R, inst)
         else:
             c.violation(R, f"type|{inst}", f"{inst} has type `{f[0]['ty'] if f else '?'}`; its iteration order reaches the serialized bytes and it must be an ordered container ({pref}…>)", a["sp"], instance=inst)
